@@ -63,6 +63,10 @@ def run(prop, tier, seed, replay=None):
         for s in by_id.values():
             for d in s["dags"] + (s.get("extra") or []):
                 nexpr += len(d.get("start") or []) + len(d.get("stop") or []) + len(d.get("restart") or [])
+        skipped = sum(1 for v in verdicts if v.get("skipped"))
+        rep.cov["scenarios_skipped_no_inotify"] = skipped
+        if verdicts and skipped == len(verdicts):
+            raise Infra("no inotify instance left on this machine: the daemon's watcher fell back to polling in every scenario")
         for v in verdicts:
             for c in v["viol"]:
                 dt = first_detail.get(v["scen"], {})
